@@ -370,12 +370,22 @@ impl<'a, const D: usize> Rdp<'a, D> {
             return;
         }
 
-        let sp = SurfacePoint::new_normalize(self.points[i0], self.points[i1] - self.points[i0]);
+        // Distances are measured to the segment between the two end points (not to the infinite
+        // line through them), which also covers coincident end points such as a closed curve
+        let a = self.points[i0];
+        let ab = self.points[i1] - a;
+        let len_sq = ab.norm_squared();
         let mut max_dist = 0.0;
         let mut max_i = 0;
 
         for i in i0 + 1..i1 {
-            let dist = (sp.projection(&self.points[i]) - self.points[i]).norm();
+            let ap = self.points[i] - a;
+            let t = if len_sq > 0.0 {
+                (ap.dot(&ab) / len_sq).clamp(0.0, 1.0)
+            } else {
+                0.0
+            };
+            let dist = (ap - ab * t).norm();
             if dist > max_dist {
                 max_dist = dist;
                 max_i = i;
